@@ -193,7 +193,10 @@ theorem pop_mono (E : Env) : ∀ f : Nat,
           split at h
           · simp at h
           · rename_i kids' log2 hp
-            have a := ih4 _ _ _ _ hp
+            have a : LogLe log1 log2 := by
+              split at hp
+              · simp only [Except.ok.injEq, Prod.mk.injEq] at hp; rw [hp.2]; exact LogLe.refl _
+              · exact ih4 _ _ _ _ hp
             have b := ih2 _ _ _ _ _ h
             exact LogLe.trans (genKids_mono hg) (LogLe.trans a b)
     · intro path t log r h
